@@ -22,6 +22,7 @@ CONSTANTS
   ProbeOffD = {42}
   OffSoon = {0,1,2,3,4,5,6}
   BigHops = {0,24}
+  CoKindsUsed = {"splice6","splice1","open6","openann"}
 INVARIANTS TypeOK NeverShowOrForwardTooSoon ClaimableBelowDeadline OnChainInTimeOutbound OnChainInTimeInbound WinInboundRace BoundedLoss FailBackAfterBurial EmitScripts
 CONSTRAINT Horizon
 CHECK_DEADLOCK FALSE
